@@ -5,7 +5,9 @@
 //   pop_back, data, size, capacity, dtor} with growToHeap/ensureCapacity (small_vector.h).
 // Allocator model: address-aware (rt_defs VF_ADDR_AWARE + VF_AA_DYNAMIC): plain ::operator new may
 //   return ANY 16-aligned address -- all that the default new alignment (16 on x86-64) promises.
-// Symbolic: the operation sequence (VF_OPS steps out of reserve / push / emplace / resize / pop), the counts, and the placement chosen by the allocator.
+// Symbolic: the placement chosen by the allocator for every block (any multiple of 16), the probed
+//   element, optional steps.  Sizes are concrete: the scenario walks through every storage transition
+//   (inline, inline->heap, heap->heap by push and by resize, reserve on empty, clear back to inline).
 //
 // Native replay: the SmallVector code and this harness are compiled with the UBSan alignment check
 // switched off (pragma below; it has no effect on the IR that is analysed), so that the harness's
@@ -18,6 +20,27 @@
 #pragma clang attribute push(__attribute__((no_sanitize("alignment"))), apply_to = function)
 #include <dispenso/small_vector.h>
 
+#if defined(__has_feature)
+#if __has_feature(address_sanitizer)
+// Native replay build only (the analysed IR is compiled without sanitizers and never sees this).
+// ASan's allocator happens to hand out generously aligned blocks, which would hide the placement the
+// solver found.  This replacement ::operator new is conforming -- it honours the default new
+// alignment of 16 -- and places every block at an address = 16 (mod 64), as glibc's malloc routinely
+// does (observed on this machine: operator new(96) -> 0x...af10, operator new(64) -> 0x...9eb0).
+#include <cstdlib>
+void* operator new(std::size_t n) {
+  char* raw = static_cast<char*>(std::malloc(n + 128));
+  uintptr_t a = ((reinterpret_cast<uintptr_t>(raw) + 8 + 63) & ~static_cast<uintptr_t>(63)) + 16;
+  *reinterpret_cast<void**>(a - 8) = raw;
+  return reinterpret_cast<void*>(a);
+}
+void operator delete(void* p) noexcept {
+  if (p) std::free(*reinterpret_cast<void**>(reinterpret_cast<uintptr_t>(p) - 8));
+}
+void operator delete(void* p, std::size_t) noexcept { operator delete(p); }
+#endif
+#endif
+
 #ifndef VF_ALIGN
 #define VF_ALIGN 32
 #endif
@@ -25,10 +48,10 @@
 #define VF_N 2
 #endif
 #ifndef VF_OPS
-#define VF_OPS 3
+#define VF_OPS 1  // 1: first transitions only (quick); 2: also heap->heap growth, resize past capacity, clear
 #endif
 #ifndef VF_MAX
-#define VF_MAX 4
+#define VF_MAX (2 * VF_N + 2)
 #endif
 
 struct alignas(VF_ALIGN) Over {
@@ -41,7 +64,7 @@ static_assert(alignof(Over) == VF_ALIGN && sizeof(Over) == VF_ALIGN, "over-align
 using Vec = dispenso::SmallVector<Over, VF_N>;
 static_assert(alignof(Vec) >= VF_ALIGN, "the vector object itself is over-aligned (inline storage)");
 
-static void check_elements(Vec& v, uint32_t n) {
+VF_NOINLINE static void check_elements(Vec& v, uint32_t n) {
   vf_check(v.size() == n, "size() follows the operations");
   vf_check(reinterpret_cast<uintptr_t>(v.data()) % alignof(Over) == 0,
            "data() is aligned for the element type (inline or heap storage)");
@@ -55,46 +78,61 @@ static void check_elements(Vec& v, uint32_t n) {
   }
 }
 
+// Two vectors walk through every storage transition with concrete sizes (so that the allocation
+// sizes are constants for the solver); what is symbolic is the placement the allocator chooses for
+// every block, the element probed, and which of the optional steps are taken.
 extern "C" void vf_main() {
   Vec v;  // automatic object: the compiler places it at an address aligned for Vec
   vf_check(reinterpret_cast<uintptr_t>(&v) % alignof(Vec) == 0, "harness: the vector object is aligned");
   uint32_t n = 0;
   check_elements(v, n);
-  for (int s = 0; s < VF_OPS; ++s) {
-    uint32_t op = vf_range_u32(0, 4);
-    switch (op) {
-      case 0: {  // reserve: heap storage without any element yet
-        uint32_t c = vf_range_u32(0, VF_MAX + 1);
-        v.reserve(c);
-        vf_check(v.capacity() >= c, "capacity() >= n after reserve(n)");
-        break;
-      }
-      case 1: {  // push_back(const&)
-        vf_assume(n < VF_MAX);
-        Over e((int32_t)n);
-        v.push_back(e);
-        n++;
-        break;
-      }
-      case 2: {  // emplace_back
-        vf_assume(n < VF_MAX);
-        v.emplace_back((int32_t)n);
-        n++;
-        break;
-      }
-      case 3: {  // resize
-        uint32_t c = vf_range_u32(0, VF_MAX);
-        v.resize(c);
-        n = c;
-        break;
-      }
-      default:  // pop_back
-        vf_assume(n > 0);
-        v.pop_back();
-        n--;
-        break;
+  // inline storage: N elements
+  for (uint32_t i = 0; i < VF_N; ++i) {
+    if (i & 1) {
+      v.emplace_back((int32_t)i);
+    } else {
+      Over e((int32_t)i);
+      v.push_back(e);
     }
+    n++;
     check_elements(v, n);
   }
+  // inline -> heap (growToHeap(2N) moving N elements)
+  v.emplace_back(7);
+  n++;
+  check_elements(v, n);
+#if VF_OPS >= 2
+  // fill the heap block, then heap -> heap (growToHeap(4N))
+  for (uint32_t i = VF_N + 1; i < 2 * VF_N; ++i) {
+    v.emplace_back((int32_t)i);
+    n++;
+  }
+  check_elements(v, n);
+  v.emplace_back(9);
+  n++;
+  check_elements(v, n);
+  if (vf_nondet_bool()) {
+    v.pop_back();
+    n--;
+    check_elements(v, n);
+  }
+#endif
+  // reserve on an empty vector: heap storage before any element exists, then resize into it
+  Vec w;
+  w.reserve(VF_N + 1);
+  vf_check(w.capacity() >= VF_N + 1, "capacity() >= n after reserve(n)");
+  check_elements(w, 0);
+  w.resize(VF_N + 1);
+  check_elements(w, VF_N + 1);
+#if VF_OPS >= 2
+  // resize past the reserved capacity: heap -> heap through ensureCapacity
+  w.resize(VF_N + 2);
+  check_elements(w, VF_N + 2);
+  // clear returns to (aligned) inline storage
+  w.clear();
+  check_elements(w, 0);
+  w.emplace_back(1);
+  check_elements(w, 1);
+#endif
 }
 #pragma clang attribute pop
